@@ -222,7 +222,7 @@ def region_ref(world, draw, pi, want=None):
     if want is not None:
         r0, h, c0, w = want
         return {'i': pi, 'sel': rect_selector(draw, pe.view['rows'], pe.view['cols'], r0, h, c0, w)}
-    if draw(st.integers(0, 9)) == 0:
+    if draw(st.integers(0, getattr(world, 'sub_one_in', 10) - 1)) == 0:      # a slice of a slice
         nr, nc = pe.view['shape']
         r0 = draw(st.integers(0, nr - 1))
         h = draw(st.integers(1, nr - r0))
@@ -243,9 +243,38 @@ def gen_transfer(world, draw, profile):
         forms += ['c2s', 'c2s', 's2c', 's2c']
     if ps:
         forms += ['w2s', 's2w', 's2s', 's2s', 'same', 'same', 'badshape']
+    pooled = [i for i, e in enumerate(world.pool) if e.kind == 's' and (world.live is None or e.meta['plate'] in world.live)]
+    if pooled:
+        # slice objects kept in the pool are used again and again (a caller holding on to `s = plate[...]`)
+        forms += ['ps2s', 'ps2c', 'c2ps'] if cs else ['ps2s']
     if not forms:
         return None
     form = draw(st.sampled_from(forms))
+    if form in ('ps2s', 'ps2c', 'c2ps'):
+        si = draw(st.sampled_from(pooled))
+        se = world.pool[si]
+        try:
+            coords, shape = rsel.resolve(se.meta['sel'], world.pool[se.meta['plate']].view['rows'],
+                                         world.pool[se.meta['plate']].view['cols'])
+        except rsel.Invalid:
+            return None
+        if form == 'ps2c':
+            op = {'op': 'transfer', 'src': {'i': si}, 'dst': {'i': draw(st.sampled_from(cs))}, 'q': None}
+        elif form == 'c2ps':
+            ne = [i for i in cs if _nonempty(world, world.pool[i].view)] or cs
+            op = {'op': 'transfer', 'src': {'i': draw(st.sampled_from(ne))}, 'dst': {'i': si}, 'q': None}
+        else:
+            # an equal-shape region of some plate (possibly the slice's own plate), or a single well
+            p2 = draw(st.sampled_from(ps))
+            nr2, nc2 = world.pool[p2].view['shape']
+            if len(shape) == 2 and shape[0] <= nr2 and shape[1] <= nc2 and draw(st.integers(0, 3)):
+                h, w_ = shape
+                dst = region_ref(world, draw, p2, (draw(st.integers(0, nr2 - h)), h, draw(st.integers(0, nc2 - w_)), w_))
+            else:
+                dst = region_ref(world, draw, p2, (draw(st.integers(0, nr2 - 1)), 1, draw(st.integers(0, nc2 - 1)), 1))
+            op = {'op': 'transfer', 'src': {'i': si}, 'dst': dst, 'q': None}
+        op['q'] = gen_transfer_quantity(world, draw, profile, op)
+        return op
     nonempty_c = [i for i in cs if _nonempty(world, world.pool[i].view)]
 
     def pick_c(prefer_nonempty):
@@ -389,6 +418,8 @@ def gen_transfer_quantity(world, draw, profile, op):
     else:
         f = -draw(st.floats(0.01, 0.9))
     x = f * qmax
+    if not math.isfinite(x):
+        x = 1e-6 * (1 if f >= 0 else -1)      # e.g. a mass per volume of a source without volume (density inf)
     prefix = draw(st.sampled_from(PREFIX_POOL))
     q = render_q(x, fam, prefix, draw(st.integers(0, 2)), digits=draw(st.sampled_from([2, 4, 12])))
     return q.text
@@ -445,6 +476,8 @@ def liquid_indices(world):
 def gen_fill_to(world, draw, profile):
     from engines.bench import well_views
     tgt = pick_target(world, draw, nonempty=draw(st.booleans()))
+    if profile.get('fill_plate_bias') and world.indices('p') and draw(st.integers(0, 3)):
+        tgt = {'i': draw(st.sampled_from(world.indices('p'))), 'sel': {'t': draw(st.sampled_from(['all', 'plate']))}}
     if tgt is None:
         return None
     ref, cfg = world.ref, world.cfg
@@ -531,6 +564,8 @@ def gen_create_solution(world, draw, profile):
     if use_container:
         sv = world.pool[solvent['c']].view
         vtot = sv['vol'] * cfg.vol_mult * draw(st.floats(0.05, 0.6))        # litres
+        if profile.get('solution_over') and draw(st.integers(0, 2)) == 0:
+            vtot = sv['vol'] * cfg.vol_mult * draw(st.floats(1.1, 1.6))     # more than the container holds by now
         sbase = world.base(sv)
         stot = ref.size(sbase, 'L')
         mix = {nm: a / stot * vtot for nm, a in sbase.items()}            # solvent part (scaled later)
@@ -604,6 +639,8 @@ def gen_dilute(world, draw, profile):
     solvent = draw(st.sampled_from(present_l if (present_l and draw(st.integers(0, 3))) else liquids))
     num = draw(st.sampled_from(['mol', 'mol', 'g', 'L']))
     den = draw(st.sampled_from(['L', 'L', 'g', 'mol']))
+    if ref.size(base, den) == 0:       # a mixture without volume (solids under a density of inf): per mass instead
+        den = 'g'
     cur = ref.conc(base, solute, num, den)
     mode = draw(st.sampled_from(profile.get('dilute_modes', ['lower'] * 6 + ['higher', 'equal'])))
     f = draw(st.floats(0.05, 0.95)) if mode == 'lower' else draw(st.floats(1.05, 1.5)) if mode == 'higher' else 1.0
@@ -629,6 +666,8 @@ def gen_create_solution_from(world, draw, profile):
     solvent = {'s': draw(st.sampled_from(liquids))}
     num = draw(st.sampled_from(['mol', 'mol', 'g', 'L']))
     den = draw(st.sampled_from(['L', 'L', 'g', 'mol']))
+    if ref.size(base, den) == 0:       # a mixture without volume (solids under a density of inf): per mass instead
+        den = 'g'
     cur = ref.conc(base, solute, num, den)
     f = draw(st.floats(0.05, 0.95)) if draw(st.integers(0, 7)) else draw(st.floats(1.05, 1.5))
     c = draw(basic.conc_spelling(cur * f, num, den, cfg.wv))
